@@ -49,7 +49,8 @@ RULE = ("planner: Hypothesis bundles in the real bundle shape; s_max drawn on a 
         "untruncated text exceeds the budget or the utterance filter fires. refine: full turns on low-similarity worlds, "
         "runtime max_rag_loops 0-16, rule-based and LLM dialogue backend; non-trivial = the planner requested retrieval. "
         "sanitiser: valid PLANNER_V1 object -> 0-2 object mutations -> serialisation -> 0-2 text mutations; non-trivial = "
-        "text whose core parses as JSON and that carries >= 1 mutation. llm_planner: the same texts through plan_with_llm. "
+        "text whose core parses as JSON and that carries >= 1 mutation (incl. every size-limited field pushed over / exactly to "
+        "its limit by whitespace of each str.strip() kind on either side). llm_planner: the same texts through plan_with_llm. "
         "Distinct = digest of the generated case.")
 ASSUMPTIONS = ["thresholds are in the validator's accepted domain (0 <= tau_low <= tau_high <= 1, epsilon_edit in [0,1]); "
                "s_max finite; token budgets >= 1 (validator: t3.tokens >= 1); op caps >= 0",
@@ -1170,15 +1171,25 @@ def check_sanitiser(case, rec=None):
         if ref is None:
             raise Violation("accepted a text that is not exactly one JSON object (after removing at most one code fence)", case,
                             "san-accept-not-single-object")
+        # documented limits measured here on the RAW accepted object and on the RAW object in the text (constants of
+        # docs/m3/llm_adapter.md, not the repo's own constants / schema / way of measuring)
+        src, dup, _f = ref
+        for who, o in (("accepted result", obj), ("object in the accepted text", src if not dup else obj)):
+            plan_, rat_ = o.get("plan"), o.get("rationale")
+            if not isinstance(plan_, list) or len(plan_) > PLAN_MAX_ITEMS:
+                raise Violation(f"{who}: plan is not a list of at most {PLAN_MAX_ITEMS} items ({ascii(plan_)[:80]})", case, "san-accept-caps")
+            for x in plan_:
+                if not isinstance(x, str) or not (1 <= len(x) <= ITEM_MAX) or not x.strip():
+                    raise Violation(f"{who}: plan item of raw length {len(x) if isinstance(x, str) else type(x).__name__} "
+                                    f"(documented 1..{ITEM_MAX} chars, non-blank): {ascii(x)[:80]}", case, "san-accept-caps")
+            if not isinstance(rat_, str) or not (1 <= len(rat_) <= RAT_MAX):
+                raise Violation(f"{who}: rationale of raw length {len(rat_) if isinstance(rat_, str) else type(rat_).__name__} "
+                                f"(documented 1..{RAT_MAX} chars)", case, "san-accept-caps")
+        if set(obj) != {"plan", "rationale", "reflection"} or not isinstance(obj["reflection"], bool):
+            raise Violation(f"accepted result has the wrong shape: {ascii(obj)[:300]}", case, "san-accept-caps")
         err = _schema_validate(obj)
         if err:
-            raise Violation(f"accepted result does not validate against PLANNER_V1: {err}", case, "san-accept-schema")
-        if set(obj) != {"plan", "rationale", "reflection"} or len(obj["plan"]) > PLAN_MAX_ITEMS or \
-                any((not isinstance(x, str)) or not (1 <= len(x) <= ITEM_MAX) or not x.strip() for x in obj["plan"]) or \
-                not isinstance(obj["rationale"], str) or not (1 <= len(obj["rationale"]) <= RAT_MAX) or \
-                not isinstance(obj["reflection"], bool):
-            raise Violation(f"accepted result violates the documented caps: {ascii(obj)[:300]}", case, "san-accept-caps")
-        src, dup, _f = ref
+            raise Violation(f"accepted result does not validate against PLANNER_V1: {err[:120]}", case, "san-accept-schema")
         if not dup:
             if set(src) - {"plan", "rationale", "reflection"} or obj["plan"] != src.get("plan") or obj["rationale"] != src.get("rationale"):
                 raise Violation(f"accepted result {ascii(obj)[:200]} is not the object in the text {ascii(src)[:200]}", case, "san-accept-differs")
@@ -1235,11 +1246,38 @@ _rat_texts = st.one_of(st.sampled_from(["r", "ok", "why", "y" * 2000, "y" * 1999
                        st.text(alphabet=st.sampled_from(ALPHA), min_size=1, max_size=60))
 
 OBJ_MUTS_INVALID = ["items17", "item201", "item_empty", "item_blank", "rat2001", "rat_empty", "plan_type", "item_type", "rat_type",
-                    "refl_bad", "unknown_key", "missing_plan", "missing_rat", "nan_lit", "huge_num", "deep", "ctrl_raw", "top_type"]
-OBJ_MUTS_NEUTRAL = ["item200", "rat2000", "items16", "refl_coerce"]
+                    "refl_bad", "unknown_key", "missing_plan", "missing_rat", "nan_lit", "huge_num", "deep", "ctrl_raw", "top_type",
+                    "item_pad_over", "item_pad_over", "rat_pad_over", "rat_pad_over"]
+OBJ_MUTS_NEUTRAL = ["item200", "rat2000", "items16", "refl_coerce", "item_pad_200", "rat_pad_2000"]
+# every character str.strip() removes (a limit measured on the stripped value instead of the raw one lets these through)
+WS_KINDS = [" ", " ", "\t", "\n", "\r\n", "\n\t", "\x0b", "\x0c", "\x1c", "\x1f", "\x85", "\u00a0", "\u1680", "\u2003", "\u2009",
+            "\u2028", "\u2029", "\u202f", "\u205f", "\u3000"]
+
+
+@st.composite
+def padded(draw, limit, over):
+    """A string whose non-whitespace core is well within `limit` and whose RAW length is > limit (over) or == limit,
+    the excess being whitespace of one kind on the left, the right or both sides."""
+    core = draw(st.sampled_from(["x", "do the thing", "a b", "é", "y" * (limit - 1), "z" * limit, "w" * (limit // 2)]))
+    total = draw(st.sampled_from([limit + 1, limit + 1, limit + 2, limit + 7, 2 * limit, 3 * limit + 5, 7000])) if over else limit
+    if not over and len(core) >= limit:
+        core = core[:limit - 3]
+    ws = draw(st.sampled_from(WS_KINDS))
+    n = max(total - len(core), 1 if over else 0)
+    pad = (ws * (n // len(ws) + 1))[:n]
+    side = draw(st.sampled_from(["trail", "trail", "lead", "both"]))
+    if side == "trail":
+        out = core + pad
+    elif side == "lead":
+        out = pad + core
+    else:
+        out = pad[:n // 2] + core + pad[n // 2:]
+    assert (len(out) > limit) if over else (len(out) == limit)
+    return out
 OBJ_MUTS_UNSPEC = ["dup_key", "surrogate", "refl_loose"]
 TXT_MUTS_INVALID = ["fence_py", "fence_double", "fence_two", "prose_before", "prose_after", "prose_around_fence", "two_objects",
-                    "garbage", "pad_20001", "pad_30000", "bom", "fence_tilde", "fence_open_only"]
+                    "garbage", "pad_20001", "pad_30000", "bom", "fence_tilde", "fence_open_only", "pad_lead_20001", "pad_uws_20001",
+                    "pad_inner_20001"]
 TXT_MUTS_NEUTRAL = ["ws_pad", "pad_20000", "pad_inner_20000"]
 TXT_MUTS_FENCE = ["fence_json", "fence_bare", "fence_upper", "fence_jsonc", "fence_noclose_nl", "fence_crlf", "nbsp_pad"]
 
@@ -1290,6 +1328,20 @@ def sanitiser_cases(draw):
                     plan[1][draw(st.integers(0, 15))] = val
                 else:
                     plan[1].insert(draw(st.integers(0, len(plan[1]))), val)
+            else:
+                bad = False
+        elif m in ("item_pad_over", "item_pad_200"):
+            if plan is not None and isinstance(plan[1], list) and len(plan[1]) < 17:
+                val = draw(padded(ITEM_MAX, m == "item_pad_over"))
+                if len(plan[1]) >= 16:
+                    plan[1][draw(st.integers(0, 15))] = val
+                else:
+                    plan[1].insert(draw(st.integers(0, len(plan[1]))), val)
+            else:
+                bad = False
+        elif m in ("rat_pad_over", "rat_pad_2000"):
+            if ratp is not None:
+                ratp[1] = draw(padded(RAT_MAX, m == "rat_pad_over"))
             else:
                 bad = False
         elif m in ("rat2001", "rat2000", "rat_empty", "rat_type"):
@@ -1392,6 +1444,22 @@ def sanitiser_cases(draw):
             target = {"pad_20000": MAX_RAW, "pad_20001": MAX_RAW + 1, "pad_30000": 30000}[m]
             if len(text) <= target:
                 text = text + " " * (target - len(text))
+            else:
+                bad = False
+        elif m in ("pad_lead_20001", "pad_uws_20001"):
+            if len(text) <= MAX_RAW:
+                n = MAX_RAW + 1 - len(text)
+                if m == "pad_lead_20001":
+                    text = draw(st.sampled_from([" ", "\n", "\t"])) * n + text
+                else:
+                    w = draw(st.sampled_from(["\u00a0", "\u2003", "\u3000", "\x0c", "\x1c", "\u2028"]))
+                    text = w * (n // 2) + text + w * (n - n // 2)
+            else:
+                bad = False
+        elif m == "pad_inner_20001":
+            i = text.find("{")
+            if i != -1 and len(text) <= MAX_RAW and "\"" not in text[:i]:
+                text = text[:i + 1] + draw(st.sampled_from([" ", "\n", "\t"])) * (MAX_RAW + 1 - len(text)) + text[i + 1:]
             else:
                 bad = False
         elif m == "pad_inner_20000":
@@ -1501,7 +1569,20 @@ def replay_llm_planner(case):
 
 # ---------------------------------------------------------------- atheris byte target
 
-FUZZ_MODES = 16
+FUZZ_MODES = 20
+_FZ_WS = [" ", "\t", "\n", "\r", "\x0b", "\x0c", "\x1c", "\x85", "\u00a0", "\u2003", "\u2028", "\u3000"]
+
+
+def _fz_pad(t, limit, exact=False):
+    """JSON string body: core from the fuzz text (escaped), padded with one whitespace kind to limit+k (or exactly limit)."""
+    sel = ord(t[0]) if t else 0
+    ws = _FZ_WS[sel % len(_FZ_WS)]
+    core = t[1:1 + (sel % 7) * (limit // 8)]
+    total = limit if exact else limit + 1 + (sel // 12) % 5 * (limit // 3)
+    n = max(total - len(core), 0 if exact else 1)
+    pad = ws * n
+    raw = {0: core + pad, 1: pad + core, 2: pad[:n // 2] + core + pad[n // 2:]}[(sel // 3) % 3]
+    return json.dumps(raw)[1:-1]
 
 
 def decode_fuzz(data: bytes):
@@ -1540,6 +1621,14 @@ def decode_fuzz(data: bytes):
         return "{\"plan\":[\"a\"],\"rationale\":\"r\",\"reflection\":" + t + "}", "as_reflection"
     if mode == 14:
         return "```json\n" + t + "\n```\n```json\n" + t + "\n```", "fence_two"
+    if mode == 16:
+        return "{\"plan\":[\"a\",\"" + _fz_pad(t, ITEM_MAX) + "\"],\"rationale\":\"r\"}", "item_pad_over"
+    if mode == 17:
+        return "{\"plan\":[\"" + _fz_pad(t, ITEM_MAX, exact=True) + "\"],\"rationale\":\"r\"}", "item_pad_200"
+    if mode == 18:
+        return "{\"plan\":[\"a\"],\"rationale\":\"" + _fz_pad(t, RAT_MAX) + "\"}", "rat_pad_over"
+    if mode == 19:
+        return "{\"plan\":[\"a\"],\"rationale\":\"" + _fz_pad(t, RAT_MAX, exact=True) + "\"}", "rat_pad_2000"
     return "\u00a0" + t + "\u2003", "nbsp_pad"
 
 
